@@ -24,19 +24,25 @@ impl<'a> TemporalPruner<'a> {
             None => return None,
         };
         let is_timestamp = column == "timestamp";
-        let ts = match value {
-            ScalarValue::Int64(i) => (*i).max(0) as u64,
-            ScalarValue::Timestamp(t) => (*t).max(0) as u64,
+        // `probe` is the literal as written (may lie before the epoch); `ts` is the same
+        // instant clamped to 0 for the calendar lookup, which only knows unsigned buckets.
+        let probe: i64 = match value {
+            ScalarValue::Int64(i) => *i,
+            ScalarValue::Timestamp(t) => *t,
             ScalarValue::Utf8(s) => {
                 if let Some(parsed) = TimeParser::parse_str_to_epoch_seconds(s, TimeKind::DateTime)
                 {
-                    parsed.max(0) as u64
+                    parsed
                 } else {
-                    s.parse::<u64>().ok().unwrap_or(0)
+                    s.parse::<u64>()
+                        .ok()
+                        .map(|u| u.min(i64::MAX as u64) as i64)
+                        .unwrap_or(0)
                 }
             }
             _ => 0,
         };
+        let ts = probe.max(0) as u64;
 
         match op {
             CompareOp::Eq => {
@@ -66,7 +72,7 @@ impl<'a> TemporalPruner<'a> {
                             .load_field_temporal_index(segment_id, uid, column, zid)
                     };
                     if let Ok(zti) = zti_result {
-                        if zti.contains_ts(ts as i64) {
+                        if zti.contains_ts(probe) {
                             out.push(CandidateZone::new(zid, segment_id.to_string()));
                         }
                     }
@@ -115,10 +121,10 @@ impl<'a> TemporalPruner<'a> {
                     };
                     if let Ok(zti) = zti_result {
                         let overlaps = match op {
-                            CompareOp::Gt => zti.max_ts > ts as i64,
-                            CompareOp::Gte => zti.max_ts >= ts as i64,
-                            CompareOp::Lt => zti.min_ts < ts as i64,
-                            CompareOp::Lte => zti.min_ts <= ts as i64,
+                            CompareOp::Gt => zti.max_ts > probe,
+                            CompareOp::Gte => zti.max_ts >= probe,
+                            CompareOp::Lt => zti.min_ts < probe,
+                            CompareOp::Lte => zti.min_ts <= probe,
                             _ => false,
                         };
                         if overlaps {
